@@ -33,6 +33,46 @@ def _race_reports(out):
     return hits
 
 
+def _loop_followup(ctx, go, nloops):
+    """Vacuity guards and trace validation for the multi-attempt layer."""
+    if go is None or "loop" not in go.reports or "looptrace" not in go.reports:
+        if ctx.violations:
+            return
+        ctx.broken("multi-attempt harness reports missing")
+    lr = go.reports["loop"]
+    cnt = lr.get("counters") or {}
+    if not ctx.violations and (int(cnt.get("behaviours_with_stale_delivery", 0)) < 3 or int(cnt.get("behaviours_completed", 0)) < 2):
+        ctx.broken("multi-attempt replay too thin: %s" % cnt)
+    tp = ctx.trace_path(go, "trace_loop")
+    ok, tr = ctx.validate_trace(SPEC, "Trace_SigningDoneLoop", tp, cfg="Trace_SigningDoneLoop", label="Trace_SigningDoneLoop",
+                                timeout=ctx.pick(900, 3000))
+    lines = open(tp).read().splitlines()
+    nruns = sum(1 for line in lines if '"Reset"' in line)
+    if nruns < 10:
+        ctx.broken("multi-attempt trace harness recorded only %d runs" % nruns)
+    if ok:
+        ctx.traces_validated += nruns
+        return
+    mh = re.findall(r'"VERIF_HWM",\s*(\d+)', tr.out)
+    hw = int(mh[-1]) if mh else None
+    if hw is None and tr.violated and tr.violated != "Postcondition":
+        ctx.violation("looptrace:invariant:%s" % tr.violated,
+                      "a recorded multi-attempt run of the real signing retry loop + done check reaches a state violating %s" % tr.violated,
+                      {"tlc": tr.out[-3000:]})
+        return
+    bad = lines[hw - 1] if hw and hw <= len(lines) else "?"
+    act = "?"
+    try:
+        act = json.loads(bad).get("a", "?")
+    except Exception:
+        pass
+    start = max([i for i in range(0, (hw or 1)) if '"Reset"' in lines[i]] or [0])
+    ctx.violation("looptrace:%s" % act,
+                  "a recorded multi-attempt run of the real signing retry loop + done check is not a behaviour of the "
+                  "multi-attempt signing-done specification (rejected at step %s, line %s: %s)" % (act, hw, bad[:500]),
+                  {"run": lines[start:(hw or 1)], "tlc": tr.out[-1500:]})
+
+
 def run(ctx):
     # 1. the contract model satisfies the property (exhaustive over the full alphabet)
     for cfg in ctx.pick(["MC_Contract"], ["MC_Contract_T", "MC_TwoSeats"]):
@@ -47,9 +87,40 @@ def run(ctx):
         hz = ctx.tlc(SPEC, "MC_SigningDone", cfg=cfg, label=cfg, expect=("violation",))
         if hz.violated != "DoneOnlyIncluded":
             ctx.broken("%s: expected DoneOnlyIncluded to be violated, got %s" % (cfg, hz.violated))
+    # 2b. the multi-attempt layer (signingRetryLoop.start + one signingDoneCheck): contract holds, the variant whose
+    #     listener is bound to the loop context is refuted
+    lc = ctx.pick("MC_Loop", "MC_Loop_T")
+    r = ctx.tlc(SPEC, "MC_Loop", cfg=lc, coverage=True, label=lc, timeout=ctx.pick(900, 3000))
+    ctx.require_coverage(r, ["BeginAttempt", "AnnounceFails", "Select", "OwnRunFails", "OwnRunOk", "SignalFails", "SignalOk",
+                             "Deliver", "Check", "Mismatch", "WaitTimeout", "Stop"], lc)
+    for cfg, inv in ctx.pick([("MC_LoopHazardStale", "NoStaleReceiver")],
+                             [("MC_LoopHazardStale", "NoStaleReceiver"), ("MC_LoopHazard", "DoneExact")]):
+        hz = ctx.tlc(SPEC, "MC_Loop", cfg=cfg, label=cfg, expect=("violation",), timeout=1500)
+        if hz.violated != inv:
+            ctx.broken("%s: expected %s to be violated, got %s" % (cfg, inv, hz.violated))
+    # behaviours of the loop layer: the directed stale-listener scenarios plus random ones (TLC simulation)
+    loops_path = os.path.join(ctx.scratch, "loops.ndjson")
+    gd = ctx.tlc(SPEC, "Gen_SigningDoneLoop", cfg="Gen_LoopDirected", workers=1, label="Gen_LoopDirected", dump_trace=False, timeout=900)
+    gs = ctx.tlc(SPEC, "Gen_SigningDoneLoop", cfg="Gen_LoopSim", mode="simulate", num=ctx.pick(120, 2500), depth=45,
+                 label="Gen_LoopSim", dump_trace=False, timeout=ctx.pick(900, 3000))
+    nloops = 0
+    with open(loops_path, "w") as out:
+        seen = set()
+        for g in (gd, gs):
+            lp = os.path.join(g.dir, "loops.ndjson")
+            if not os.path.isfile(lp):
+                ctx.broken("loop behaviour generation %s wrote nothing" % g.dir)
+            for line in open(lp):
+                if line not in seen:
+                    seen.add(line)
+                    out.write(line)
+                    nloops += 1
+    if nloops < 50:
+        ctx.broken("only %d multi-attempt behaviours generated" % nloops)
     # 3. every history of the contract model, replayed on the real code
     gens = ctx.pick(["Gen_Quick"], ["Gen_Deep", "Gen_Full2"])
     total = 0
+    first_go = None
     for i, gcfg in enumerate(gens):
         g = ctx.tlc(SPEC, "Gen_SigningDone", cfg=gcfg, workers=1, label=gcfg, dump_trace=False, timeout=3000)
         hp = os.path.join(g.dir, "histories.ndjson")
@@ -58,12 +129,15 @@ def run(ctx):
         nlines = sum(1 for _ in open(hp))
         if nlines < 100:
             ctx.broken("generation %s produced only %d prefixes" % (gcfg, nlines))
-        tests = "^TestVerif_C35_(Replay|Concurrent)$" if i == 0 else "^TestVerif_C35_Replay$"
-        go = ctx.gotest(PKG, tests, ["c35_test.go"],
-                        inputs={"histories.ndjson": hp, "config.json": json.dumps(CONFIG)},
-                        env={"VERIF_RUNS": ctx.pick(120, 1200), "VERIF_MAX_HIST": ctx.pick(0, 150000)},
+        tests = "^TestVerif_C35_(Replay|Concurrent|Loop|LoopTrace)$" if i == 0 else "^TestVerif_C35_Replay$"
+        go = ctx.gotest(PKG, tests, ["c35_test.go", "c35_loop_test.go"],
+                        inputs={"histories.ndjson": hp, "config.json": json.dumps(CONFIG), "loops.ndjson": loops_path},
+                        env={"VERIF_RUNS": ctx.pick(120, 1200), "VERIF_MAX_HIST": ctx.pick(0, 150000),
+                             "VERIF_LOOP_RUNS": ctx.pick(40, 600)},
                         label="replay-" + gcfg, timeout=ctx.pick(900, 3000))
         ctx.absorb(go)
+        if i == 0:
+            first_go = go
         if go.reports:
             rp = go.reports.get("replay") or {}
             n = int((rp.get("extra") or {}).get("histories", 0))
@@ -101,6 +175,8 @@ def run(ctx):
                                   "recorded concurrent run of the real signingDoneCheck is not a behaviour of the signing-done "
                                   "contract (rejected at %s event, line %s: %s)" % (ev, hw, bad),
                                   {"run": lines[start:(hw or 1) + 1], "tlc": tr.out[-1500:]})
+    _loop_followup(ctx, first_go, nloops)
+    ctx.note("replayed %d multi-attempt behaviours on the real signingRetryLoop.start + signingDoneCheck" % nloops)
     ctx.note("replayed %d delivery histories (late and eager waiter) on the real signingDoneCheck" % total)
     # 5. the same concurrent runs under the race detector
     try:
